@@ -1500,3 +1500,7 @@ mod tests {
         }
     }
 }
+
+#[cfg(kani)]
+#[path = "/verif/kani/parse_request_proofs.rs"]
+mod verif_kani;
